@@ -220,6 +220,54 @@ func c06Bindings(c *Ctx, ht *types.Named, funcs map[string]*ssa.Function) {
 			toStrings = f
 		}
 	}
+	// ... or a general "apply to each" helper (generic or not) handed the conversion: found at the call that makes
+	// the Headers / CellsOf answer, where the conversion handed over is Cell.String itself
+	convParam := -1
+	isCellStringFn := func(v ssa.Value) bool {
+		v = unwrap(v, true)
+		if mc, isMC := v.(*ssa.MakeClosure); isMC {
+			v = mc.Fn
+		}
+		f, isF := v.(*ssa.Function)
+		if !isF {
+			return false
+		}
+		f = skipWrappers(f) // the thunk of a method expression, a bound-method wrapper
+		return isCellSource(f) && f.Name() == "String"
+	}
+	if toStrings == nil {
+		for _, key := range []string{"Headers", "CellsOf"} {
+			f := funcs[key]
+			if f == nil {
+				continue
+			}
+			for _, ret := range returnsOf(f) {
+				call, isCall := results(ret)[0].(*ssa.Call)
+				if !isCall {
+					continue
+				}
+				g := call.Call.StaticCallee()
+				if g == nil || g.Blocks == nil || !inModule(g) || len(call.Call.Args) != 2 || len(g.Params) != 2 {
+					continue
+				}
+				ps, okP := g.Params[0].Type().Underlying().(*types.Slice)
+				rs, okR := g.Signature.Results().At(0).Type().Underlying().(*types.Slice)
+				if okP && okR && isNamed(ps.Elem(), modPath, "Cell") && isStringType(rs.Elem()) && isCellStringFn(call.Call.Args[1]) {
+					toStrings, convParam = g, 1
+				}
+			}
+		}
+		if toStrings != nil {
+			// every call of the helper in the package hands it Cell.String
+			for _, hf := range c.ModFuncs("html") {
+				eachInstr(hf, func(in ssa.Instruction) {
+					if staticCallee(in) == toStrings && !isCellStringFn(callCommon(in).Args[convParam]) {
+						toStrings = nil
+					}
+				})
+			}
+		}
+	}
 	viaStrings := func(f *ssa.Function) bool {
 		ok := false
 		for _, ret := range returnsOf(f) {
@@ -274,7 +322,10 @@ func c06Bindings(c *Ctx, ht *types.Named, funcs map[string]*ssa.Function) {
 	}
 	if toStrings != nil {
 		ok := elementwiseMap(c, toStrings, func(call *ssa.Call) bool {
-			return isCellSource(call.Call.StaticCallee()) && call.Call.StaticCallee().Name() == "String"
+			if convParam >= 0 {
+				return call.Call.Value == ssa.Value(toStrings.Params[convParam]) // the conversion handed in: Cell.String at every call
+			}
+			return call.Call.StaticCallee() != nil && isCellSource(call.Call.StaticCallee()) && call.Call.StaticCallee().Name() == "String"
 		})
 		r.Check("R06.3", FuncName(toStrings), "yields one string per cell, in order: r[i] = cells[i].String() for every i", toStrings.Pos(), ok, "")
 	}
@@ -572,7 +623,7 @@ func elementwiseMap(c *Ctx, fn *ssa.Function, isConv func(*ssa.Call) bool) bool 
 	ok := false
 	convOf := func(v ssa.Value) ssa.Value { // conv(xs[idx]) -> idx
 		call, isCall := v.(*ssa.Call)
-		if !isCall || call.Call.StaticCallee() == nil || !isConv(call) || len(call.Call.Args) == 0 {
+		if !isCall || !isConv(call) || len(call.Call.Args) == 0 {
 			return nil
 		}
 		sl, idx := sectionOfAny(call.Call.Args[0])
